@@ -3,7 +3,11 @@ package monitors
 
 import (
 	"bytes"
+	"fmt"
+	"os"
+	"os/exec"
 	"runtime"
+	"strings"
 	"sync"
 	"time"
 
@@ -89,5 +93,46 @@ func scionQuiesce() {
 			return
 		}
 		time.Sleep(time.Millisecond)
+	}
+}
+
+// runMainLeg runs a leg of the monitors that lives inside the service's own package (see
+// harness/mainleg): the test binary of package main, built by the check script with the leg's file
+// laid over the repository, is run with VERIF_MAINLEG=name and its report merged into r.
+func runMainLeg(r *ev.Run, name string) {
+	bin := os.Getenv("VERIF_MAIN_TEST")
+	if bin == "" {
+		r.Set("main_package_leg:"+name, "not run: the service's test binary was not built")
+		return
+	}
+	cmd := exec.Command(bin, "-test.run", "TestVerifMainLeg", "-test.timeout", "120s")
+	cmd.Env = append(os.Environ(), "VERIF_MAINLEG="+name)
+	out, err := cmd.CombinedOutput()
+	done := false
+	for _, ln := range strings.Split(string(out), "\n") {
+		switch {
+		case strings.HasPrefix(ln, "MAINLEG VIOL "):
+			sig, detail, _ := strings.Cut(strings.TrimPrefix(ln, "MAINLEG VIOL "), "\t")
+			r.Violation(sig, "main:"+name, map[string]any{"detail": detail})
+		case strings.HasPrefix(ln, "MAINLEG CLASS "):
+			r.Class("service wiring: " + strings.TrimPrefix(ln, "MAINLEG CLASS "))
+		case strings.HasPrefix(ln, "MAINLEG EVAL "):
+			var n int64
+			fmt.Sscan(strings.TrimPrefix(ln, "MAINLEG EVAL "), &n)
+			r.Eval(n)
+		case ln == "MAINLEG DONE":
+			done = true
+		}
+	}
+	if !done {
+		tail := string(out)
+		if len(tail) > 1500 {
+			tail = tail[len(tail)-1500:]
+		}
+		if strings.Contains(tail, "panic:") {
+			r.Violation("timeservice|panic|leg inside the service's own package: "+name, "main:"+name, map[string]any{"output": tail})
+		} else {
+			r.Inconclusive(fmt.Sprintf("leg %s inside the service's own package did not finish: %v %s", name, err, tail))
+		}
 	}
 }
